@@ -86,7 +86,7 @@ impl SignatureContext {
 
 pub fn v2_header_verdict(signature: String, auth_v2: &Presented<'_>, access_key: &str, secret_key: SecretKey) -> (ret: S3Result<CredentialsExt>)
     ensures
-        //# C07:verdict.v2_header.accept_iff_signatures_equal_and_attributed_to_the_claimed_key
+        //# C07,C11:verdict.v2_header.accept_iff_signatures_equal_and_attributed_to_the_claimed_key
         verdict(ret, signature@, auth_v2.signature@, access_key@, secret_key),
         //#-
 //@@ canary v2_header_verdict
@@ -96,7 +96,7 @@ pub fn v2_header_verdict(signature: String, auth_v2: &Presented<'_>, access_key:
 
 pub fn v2_presigned_verdict(signature: String, presigned_url: &Presented<'_>, access_key: &str, secret_key: SecretKey) -> (ret: S3Result<CredentialsExt>)
     ensures
-        //# C07:verdict.v2_presigned.accept_iff_signatures_equal_and_attributed_to_the_claimed_key
+        //# C07,C11:verdict.v2_presigned.accept_iff_signatures_equal_and_attributed_to_the_claimed_key
         verdict(ret, signature@, presigned_url.signature@, access_key@, secret_key),
         //#-
 //@@ canary v2_presigned_verdict
